@@ -16,6 +16,10 @@ pub enum VarKind {
 pub struct VarDecl {
     pub values: Vec<i32>,
     pub kind: VarKind,
+    /// A literal created with `new_literal_for_predicate(p)`: its value is 1 iff `p` holds
+    /// (`p` is over an earlier variable). Assignments that break the definition are not part of
+    /// the declared space.
+    pub def: Option<Pred>,
 }
 
 impl VarDecl {
@@ -23,6 +27,7 @@ impl VarDecl {
         VarDecl {
             values: (lb..=ub).collect(),
             kind: VarKind::Interval,
+            def: None,
         }
     }
     pub fn sparse(values: &[i32]) -> Self {
@@ -32,12 +37,22 @@ impl VarDecl {
         VarDecl {
             values: v,
             kind: VarKind::Sparse,
+            def: None,
         }
     }
     pub fn lit() -> Self {
         VarDecl {
             values: vec![0, 1],
             kind: VarKind::Lit,
+            def: None,
+        }
+    }
+    /// A literal defined by a predicate over an earlier variable.
+    pub fn lit_for(p: Pred) -> Self {
+        VarDecl {
+            values: vec![0, 1],
+            kind: VarKind::Lit,
+            def: Some(p),
         }
     }
     /// Shape given as sorted values; contiguous => interval, otherwise sparse.
@@ -53,6 +68,7 @@ impl VarDecl {
             } else {
                 VarKind::Sparse
             },
+            def: None,
         }
     }
     pub fn lb(&self) -> i32 {
@@ -621,7 +637,10 @@ impl Model {
                 let k = match v.kind {
                     VarKind::Interval => format!("[{}..{}]", v.lb(), v.ub()),
                     VarKind::Sparse => format!("{:?}", v.values),
-                    VarKind::Lit => "lit".to_string(),
+                    VarKind::Lit => match v.def {
+                        Some(p) => format!("lit({p})"),
+                        None => "lit".to_string(),
+                    },
                 };
                 format!("x{}:{}", i, k)
             })
@@ -644,8 +663,11 @@ pub fn for_each_assignment(vars: &[VarDecl], f: &mut impl FnMut(&[i32])) {
     }
     let mut idx = vec![0usize; n];
     let mut asg: Vec<i32> = vars.iter().map(|v| v.values[0]).collect();
+    let defined: Vec<(usize, Pred)> = vars.iter().enumerate().filter_map(|(i, v)| v.def.map(|p| (i, p))).collect();
     loop {
-        f(&asg);
+        if defined.iter().all(|(i, p)| (asg[*i] == 1) == p.holds(&asg)) {
+            f(&asg);
+        }
         // increment (last variable fastest)
         let mut k = n;
         loop {
